@@ -81,18 +81,16 @@ def reconnOk (f : Flavour) (s : L) (e : Ev) : Bool :=
     (r.2.contains .connectAttempt && r.1.proto &&
       (match r.1.link with | .attempting _ => true | _ => false))
 
-theorem reconnOk_all (f : Flavour) (s : L) (e : Ev) (h : ¬ (f = .tcpAsync ∧ e = .peerCloseOrderly)) :
-    reconnOk f s e = true := by
+theorem reconnOk_all (f : Flavour) (s : L) (e : Ev) : reconnOk f s e = true := by
   obtain ⟨p, l⟩ := s
-  cases f <;> cases e <;> cases p <;> cases l <;> (try rename_i tr; cases tr) <;>
-    first | rfl | exact absurd ⟨rfl, rfl⟩ h
+  cases f <;> cases e <;> cases p <;> cases l <;> (try rename_i tr; cases tr) <;> rfl
 
 /-- nothing left that could produce a callback, a write or a connect attempt -/
-def dead (f : Flavour) (s : L) : Bool :=
-  !s.proto && (match s.link with | .idle => true | .attempting _ => !f.isAsync | _ => false)
+def dead (_f : Flavour) (s : L) : Bool :=
+  !s.proto && (match s.link with | .idle => true | .attempting _ => true | _ => false)
 
 def stopOk (f : Flavour) (s : L) : Bool :=
-  !(inv s && (!f.isAsync || s.link != .attempting false)) || dead f (lstep f s .stop).1
+  !(inv s) || dead f (lstep f s .stop).1
 
 theorem stopOk_all (f : Flavour) (s : L) : stopOk f s = true := by
   obtain ⟨p, l⟩ := s
